@@ -596,13 +596,13 @@ pub fn driver_main(check: &dyn Check, tier: Tier, seed: u64, replay_idx: Option<
             continue;
         }
         reruns += 1;
-        if reruns > 6 {
-            // bounded effort: the first six suspects decide; the rest are recorded as inconclusive
+        if reruns > 4 {
+            // bounded effort: the first four suspects decide; the rest are recorded as inconclusive
             agg.inconclusive_n += 1;
-            agg.inconclusive.push(format!("case {idx}: suspect ({why}) not re-run in isolation (more than 6 suspects in this run)"));
+            agg.inconclusive.push(format!("case {idx}: suspect ({why}) not re-run in isolation (more than 4 suspects in this run)"));
             continue;
         }
-        match run_alone(id, tier, seed, *idx, cap * 5) {
+        match run_alone(id, tier, seed, *idx, cap * 3) {
             Ok(v) => {
                 agg.absorb(&v);
                 *agg.counters.entry("suspects_cleared_in_isolation".into()).or_insert(0) += 1;
@@ -610,7 +610,7 @@ pub fn driver_main(check: &dyn Check, tier: Tier, seed: u64, replay_idx: Option<
             Err("timeout") => {
                 if check.hang_is_violation() {
                     let last = std::fs::read_to_string(trace_path(id, *idx)).unwrap_or_default();
-                    hang_violations.push((*idx, format!("case {idx} did not return within {}s when run alone (first seen as {why}); last traced step: {}", cap.as_secs() * 5, last.chars().take(600).collect::<String>())));
+                    hang_violations.push((*idx, format!("case {idx} did not return within {}s when run alone (first seen as {why}); last traced step: {}", cap.as_secs() * 3, last.chars().take(600).collect::<String>())));
                 } else {
                     agg.inconclusive_n += 1;
                     agg.inconclusive.push(format!("case {idx}: no result within the isolated cap (first seen as {why})"));
